@@ -32,8 +32,8 @@ CHECKS = {
   "DESIGN.md §5 C05"),
  "C06": ("envx+enum",
   "every frame emitted in a scenario set reaching every originator is validated by an independent RFC-derived decoder; exhaustive enumeration of UDP payloads (all 2-byte values, all lengths) and echo lengths; bounded environment exploration for the TCP originators",
-  "UDP over IPv4 and IPv6: all 65536 two-byte payloads (checksum through all values) and lengths 0..1472 plus 13 lengths around the 16-bit limits (65486..65535); ICMPv4/ICMPv6 echo replies for lengths 0..MTU; TCP (SYN/SYN-ACK with all option sets, data with timestamps/SACK blocks, ACK, FIN, RST from handshake checks and for 64 stray flag combinations) in two-stack and raw-peer runs under budget-1 deviations. Each frame: decodes, length fields equal actual lengths, IPv4 header / ICMP / UDP / TCP checksums verify (UDP/IPv6 zero checksum is a violation), options well-formed and padded, SYN-only options only on SYN, source is an address of the emitting stack, consecutive >68-byte packets of a flow carry different IPv4 ids.",
-  "Ethernet-level addressing (destination MAC) and ARP/NDP frames are exercised by the C12 scenarios once built.",
+  "UDP over IPv4 and IPv6: all 65536 two-byte payloads (checksum through all values) and lengths 0..1472 plus 13 lengths around the 16-bit limits (65486..65535); ICMPv4/ICMPv6 echo replies for lengths 0..MTU; TCP (SYN/SYN-ACK with all option sets, data with timestamps/SACK blocks, ACK, FIN, RST from handshake checks and for 64 stray flag combinations) in two-stack and raw-peer runs under budget-1 deviations. Each frame: decodes, length fields equal actual lengths, IPv4 header / ICMP / UDP / TCP checksums verify (UDP/IPv6 zero checksum is a violation), options well-formed and padded, SYN-only options only on SYN, source is an address of the emitting stack, consecutive >68-byte packets of a flow carry different IPv4 ids. Ethernet: two links with the same gateway address and different link addresses; datagrams routed through each, in both orders, must leave with the link address resolved on that link (and an ARP request on that link first).",
+  "ARP/NDP frames themselves are validated inside the C12 scenarios.",
   "DESIGN.md §4, §5 C06"),
  "C11": ("enum+seqx+coop",
   "exhaustive enumeration of payload lengths x socket kinds on two real stacks; explicit-state search over all interleavings of sends, reads, shutdown, close against a reference queue; stateless model checking of concurrent readers vs delivery",
@@ -92,8 +92,8 @@ CHECKS = {
   "DESIGN.md §5 C07"),
  "C09": ("seqx+coop",
   "explicit-state search over socket-set histories (open orders, closes, interface toggles) on the real stack with exhaustive injection of the inbound 4-tuple alphabet after every operation, against a most-specific-match reference; stateless model checking (cooperative scheduler, all schedules) of registration/unregistration racing delivery",
-  "Sockets from {UDP bound *:P, A1:P, A2:P, A3:P (NIC 2), A1:P connected to R:Q, *:P connected to R:Q; the same connected through NIC 1 explicitly, A1:P bound on NIC 1, *:P bound on NIC 2; TCP listener *:P, A1:P}: all sets of size <=3 in all open orders, then each single close; toggles promiscuous / subnet / removal of the second local address (sockets bound to it stay open); every connected socket connecting again to the peer it already has; after each operation every packet of dst {A1,A2,A3,foreign,unassigned} x dport {P,P'} x src {R,R'} x sport {Q,Q'} x {UDP, TCP SYN, TCP ACK+data} on each NIC is injected and the receiving socket (or the reset / ICMP-free silence) compared with the most-specific-match reference; each datagram reaches exactly one socket, never a closed one. Concurrent programs (bind/close racing delivery) over all schedules: each datagram reaches at most one socket, one registered at some time during the delivery, the more specific one if it was registered throughout.",
-  "Established TCP connections as menu items are outside the alphabet (established connections are covered by C01/C03). The concurrent part uses a single-NIC world (NIC map iteration order is not controlled).",
+  "Sockets from {UDP bound *:P, A1:P, A2:P, A3:P (NIC 2), A1:P connected to R:Q, *:P connected to R:Q; the same connected through NIC 1 explicitly, A1:P bound on NIC 1, *:P bound on NIC 2; TCP listener *:P, A1:P}: all sets of size <=3 in all open orders, then each single close; toggles promiscuous on and off again / subnet added and removed again / removal of the second local address (sockets bound to it stay open); every connected socket connecting again to the peer it already has; a TCP connection A1:P<-R:Q established through the listener (its in-sequence data must reach the connection, a SYN on its 4-tuple creates nothing); after each operation every packet of dst {A1,A2,A3,foreign,unassigned} x dport {P,P'} x src {R,R'} x sport {Q,Q'} x {UDP, TCP SYN, TCP ACK+data} on each NIC is injected and the receiving socket (or the reset / ICMP-free silence) compared with the most-specific-match reference; each datagram reaches exactly one socket, never a closed one. Concurrent programs (bind/close racing delivery) over all schedules: each datagram reaches at most one socket, one registered at some time during the delivery, the more specific one if it was registered throughout.",
+  "The concurrent part uses a single-NIC world (NIC map iteration order is not controlled).",
   "DESIGN.md §5 C09"),
  "C12": ("enum+envx+seqx",
   "exhaustive enumeration of ARP/NDP request and reply fields on the real stack; stateless model checking (deviation-bounded DFS in virtual time) of a resolution in progress under lost requests/replies, early timers, contradicting replies and concurrent askers; explicit-state search over the link-address cache against a reference map with expiry",
